@@ -398,6 +398,23 @@ func c02r5(r *R) {
 	altSha := false
 	eachInstr(ts, func(i ssa.Instruction) {
 		if ret, ok := i.(*ssa.Return); ok {
+			// hex of the first six bytes of the digest is the first twelve hex characters
+			if hc, isCall := ret.Results[0].(*ssa.Call); isCall && calleeName(&hc.Call) == "encoding/hex.EncodeToString" {
+				if s2, ok := hc.Call.Args[0].(*ssa.Slice); ok && s2.Low == nil {
+					if hi, okh := constInt(s2.High); okh {
+						if al, ok := s2.X.(*ssa.Alloc); ok {
+							if st := uniqueStore(al); st != nil {
+								if sc, ok := st.Val.(*ssa.Call); ok && calleeName(&sc.Call) == "crypto/sha256.Sum256" {
+									o2.AtI(i).Check(hi == 6, "hash is cut to the hex of %d bytes, want 6 (12 characters)", hi)
+									o2.Check(c.Expr(sc.Call.Args[0]) == "p0", "hex digest is computed from %s, want sha256.Sum256 of the argument string", c.Expr(sc.Call.Args[0]))
+									altSha = true
+									return
+								}
+							}
+						}
+					}
+				}
+			}
 			sl, isSl := ret.Results[0].(*ssa.Slice)
 			if !o2.Check(isSl, "truncatedSha256 returns %s, want a 12-character prefix", c.Expr(ret.Results[0])) {
 				return
@@ -458,6 +475,43 @@ func c02r5(r *R) {
 			}
 		}
 	})
+	// the same rendering through strconv: h := FormatUint(uint64(el), 16) written after Repeat("0", 4-len(h))
+	if nfmt == 0 {
+		var fu, rep ssa.Instruction
+		var wsH, wsPad ssa.Instruction
+		eachInstr(ju, func(i ssa.Instruction) {
+			call, ok := i.(*ssa.Call)
+			if !ok {
+				return
+			}
+			switch calleeName(&call.Call) {
+			case "strconv.FormatUint":
+				fu = i
+			case "strings.Repeat":
+				rep = i
+			case "(*bytes.Buffer).WriteString", "(*strings.Builder).WriteString":
+				if fu != nil && call.Call.Args[1] == fu.(ssa.Value) {
+					wsH = i
+				}
+				if rep != nil && call.Call.Args[1] == rep.(ssa.Value) {
+					wsPad = i
+				}
+			}
+		})
+		if fu != nil && rep != nil && wsH != nil && wsPad != nil {
+			el := "p0[" + rngIdx + "]"
+			okF := c.Expr(callOf(fu).Args[0]) == el
+			base, _ := constInt(callOf(fu).Args[1])
+			zero, _ := constString(callOf(rep).Args[0])
+			okR := zero == "0" && c.Expr(callOf(rep).Args[1]) == "(4 - builtin.len(strconv.FormatUint("+el+", 16)))"
+			o3.AtI(fu, rep).Check(okF && base == 16 && okR, "element rendering is FormatUint(%s, %d) padded with Repeat(%q, %s), want four lower-case hex digits of every element", c.Expr(callOf(fu).Args[0]), base, zero, c.Expr(callOf(rep).Args[1]))
+			o3.Check(wsPad.Block() == wsH.Block() && instrDominates(wsPad, wsH), "the padding is not written right before the digits")
+			o3.Check(onlyGuards(c, wsH.Block(), "+("+rngIdx+" < builtin.len(p0))") == "", "an element is rendered only under %v", c.guardStrs(wsH.Block()))
+			if okF && base == 16 && okR {
+				nfmt = 1
+			}
+		}
+	}
 	// the same rendering spelled out: four WriteByte calls, one per nibble from the most significant down, each indexing
 	// the lower-case hex digit string
 	var wb []ssa.Instruction
